@@ -265,7 +265,7 @@ func runC07(r *rng, tier string) {
 		cases = append(cases, gcase{r.randomGraph(), "random"})
 	}
 	if tier == "thorough" {
-		wfaultMaxWrites = 400
+		wfaultMaxWrites = 120
 	}
 	nmulti := nrand / 4
 	for i := 0; i < nmulti; i++ {
